@@ -45,6 +45,7 @@ type c13Scenario struct {
 	Seed       uint64   `json:"seed"`
 	IssuerKey  string   `json:"issuer_key"`  // rsa | p256 | p384 | p521
 	NegReq     bool     `json:"neg_req,omitempty"` // the request is built for a certificate with a negative serial number
+	RevZero    bool     `json:"rev_zero,omitempty"` // a Revoked template whose RevokedAt is left at the zero time
 	Delegated  bool     `json:"delegated"`   // signed by a delegated responder certificate embedded in the response
 	Status     int      `json:"status"`      // 0 good 1 revoked 2 unknown
 	Reason     int      `json:"reason"`
@@ -70,6 +71,7 @@ func genC13(seed uint64, tier string) any {
 	sc := &c13Scenario{Seed: seed}
 	sc.IssuerKey = []string{"rsa", "p256", "p384", "p521"}[r.Pick([]int{3, 3, 3, 2})]
 	sc.NegReq = r.Chance(1, 6)
+	sc.RevZero = r.Chance(1, 8)
 	sc.Delegated = r.Chance(2, 5)
 	sc.Status = r.Intn(3)
 	sc.Reason = []int{0, 1, 2, 3, 4, 5, 6, 8, 9, 10}[r.Intn(10)]
@@ -91,7 +93,7 @@ func genC13(seed uint64, tier string) any {
 	}
 	sc.Staple = sc.Multi == 0 && r.Chance(1, 8)
 	if r.Chance(3, 5) && sc.Multi == 0 {
-		kinds := []string{"flip", "flip", "flip", "flip", "trunc", "append", "substitute", "wrong_issuer", "rogue_responder", "strip_cert",
+		kinds := []string{"flip", "flip", "flip", "flip", "trunc", "append", "substitute", "wrong_issuer", "rogue_responder", "rogue_issuer_name", "strip_cert",
 			"set", "set", "set", "grow", "growprim", "dup", "drop", "tail_inner"}
 		sc.Fault = c13Fault{Kind: kinds[r.Intn(len(kinds))], Off: r.Intn(1 << 20), Bit: r.Intn(8), N: 1 + r.Intn(40)}
 		if sc.Fault.Kind == "strip_cert" && !sc.Delegated {
@@ -434,7 +436,9 @@ func c13Run(t *testing.T, sc *c13Scenario, p *c13PKI, o *Outcome) *Failure {
 	sub := time.Duration(sc.SubNs)
 	tmpl := ocsp.Response{Status: sc.Status, SerialNumber: big.NewInt(sc.Serial), ThisUpdate: now.Add(-time.Duration(sc.ThisOffS)*time.Second + sub), NextUpdate: now.Add(time.Duration(sc.NextOffS)*time.Second + sub),
 		IssuerHash: crypto.Hash(sc.Hash)}
-	if sc.Status == ocsp.Revoked {
+	if sc.Status == ocsp.Revoked && sc.RevZero {
+		tmpl.RevocationReason = crl.RevocationReasonCode(sc.Reason) // RevokedAt stays the zero time
+	} else if sc.Status == ocsp.Revoked {
 		tmpl.RevokedAt = now.Add(-time.Duration(sc.RevOffS)*time.Second + sub)
 		tmpl.RevocationReason = crl.RevocationReasonCode(sc.Reason)
 	}
@@ -561,6 +565,14 @@ func c13Run(t *testing.T, sc *c13Scenario, p *c13PKI, o *Outcome) *Failure {
 		t2 := tmpl
 		t2.Certificate = p.rogueZ[ik]
 		delivered, _ = ocsp.CreateResponse(issuerZ, p.rogueZ[ik], t2, ocspSignerKey("p256_10"))
+		signedBy = nil
+	case "rogue_issuer_name":
+		// the embedded "responder" certificate carries the issuer's own subject name but an attacker's key
+		// (self-signed); the response is signed with that key
+		fake := kit.MakeCert(kit.CertSpec{Name: "OCSP CA " + ik, Key: "p256_10", IsCA: true, MaxPathLen: -1, Serial: 74})
+		t2 := tmpl
+		t2.Certificate = zparse(fake.DER)
+		delivered, _ = ocsp.CreateResponse(issuerZ, t2.Certificate, t2, ocspSignerKey("p256_10"))
 		signedBy = nil
 	case "strip_cert":
 		t2 := tmpl
@@ -754,7 +766,7 @@ func init() {
 		Real:   []string{"ocsp.CreateResponse, CreateRequest, ParseRequest, ParseResponse, ParseResponseForCert, Response.CheckSignatureFrom", "TLS OCSP stapling path (server CertificateStatus / TLS 1.3 certificate entry, client ConnectionState().OCSPResponse)"},
 		Stub:   []string{"Byzantine relay", "multi-status responses built with the standard library's ASN.1", "authenticity oracle: standard-library RSA/ECDSA verification", "clock: synctest bubble"},
 		Assume: []string{"acceptance of a response that differs from the original only in unsigned, semantically inert places is not flagged", "rejections are never flagged"},
-		FaultKinds: []string{"fault.relay_none", "fault.relay_flip", "fault.relay_trunc", "fault.relay_append", "fault.relay_substitute", "fault.relay_wrong_issuer", "fault.relay_rogue_responder", "fault.relay_strip_cert",
+		FaultKinds: []string{"fault.relay_none", "fault.relay_flip", "fault.relay_trunc", "fault.relay_append", "fault.relay_substitute", "fault.relay_wrong_issuer", "fault.relay_rogue_responder", "fault.relay_rogue_issuer_name", "fault.relay_strip_cert",
 			"probe.tampered_rejected", "probe.tampered_accepted", "probe.request_roundtrip", "probe.response_roundtrip", "probe.multi_status_responses", "probe.stapled_via_tls"},
 		NotInjected: "no concurrency or storage in OCSP parsing; the fault dimension is the relay and the clock position",
 		Gen:         genC13, New: func() any { return &c13Scenario{} }, Exec: execC13, Shrink: shrinkC13,
